@@ -23,7 +23,7 @@ func init() {
 		NotDecided: "the map semantics of AddDesc/RmDesc (value-level, see C18); strictness of the `last` comparison; exactly-once paging.",
 	})
 	registerProperty(&Property{ID: "C04", DesignRef: "DESIGN.md §4 C04, §3.3, §3.6",
-		Rules:      []string{"TS-EXISTS", "TS-MT-CONSISTENT", "TS-REFTAG", "TS-HASHBYTES#expected-digest", "TS-REFUSE#push", "TB-MEDIATYPE", "PV-PATH#digest"},
+		Rules:      []string{"TS-EXISTS", "TS-MT-CONSISTENT", "TS-REFTAG", "TS-HASHBYTES#expected-digest", "TS-REFUSE#push", "TB-MEDIATYPE", "TS-DETECT", "PV-PATH#digest"},
 		Technique:  techPath + "; table agreement on constants",
 		Decided:    "every path to the index insert passes the parse ok-edge and the ok-edge of an existence verifier that covers every Descriptor field of the parsed struct in the same repository; the declared media type is compared with the body's; reference is a grammar-checked tag or the compared digest; media-type tables agree; nothing mutating is reachable after any refusal; mutators sit behind the read-only guard.",
 		NotDecided: "well-formedness beyond what the JSON decoder and the reference checks establish; equality of the observable state before/after a refusal as a value.",
@@ -35,7 +35,7 @@ func init() {
 		NotDecided: "the referrers part of the retention policy matrix; which blobs a given graph retains.",
 	})
 	registerProperty(&Property{ID: "C06", DesignRef: "DESIGN.md §4 C06, §3.7",
-		Rules:      []string{"SH-PASS-LOOP", "TS-SAVE#collector", "SH-WORKLIST#term", "SH-WORKLIST#skip-set", "SH-MARK-EXHAUSTIVE", "SH-SWEEP-GUARD", "SH-ROOTS", "SH-MODSTAMP"},
+		Rules:      []string{"SH-PASS-LOOP", "TS-SAVE#collector", "SH-WORKLIST#term", "SH-WORKLIST#skip-set", "SH-MARK-EXHAUSTIVE", "SH-SWEEP-GUARD", "SH-ROOTS", "SH-MODSTAMP", "FS-CLEANUP#fresh"},
 		Technique:  "loop-shape and path rules on go/ssa and the typed AST",
 		Decided:    "a failing repository does not end the store-wide pass (no path from the failure edge leaves the loop); a collector-modified index is saved on all paths; the mark and scan loops terminate on any input (progress + bounded growth); index entries without a blob are pruned; untagged entries that are old or outside any grace period are not roots when untagged collection is on (path conditions of the root selection); ‘exactly the garbage’ also means nothing retained is removed: the mark phase's skip-set discipline, field exhaustiveness and the sweep guards (shared with C05).",
 		NotDecided: "exactness of the sweep as a value; idempotence of a second pass; empty-repository removal semantics (its safety is under C10).",
@@ -53,13 +53,13 @@ func init() {
 		NotDecided: "the count bound (asynchronous pruning, value-level); that status reports exactly the received bytes; expiry timing.",
 	})
 	registerProperty(&Property{ID: "C09", DesignRef: "DESIGN.md §4 C09, §3.5",
-		Rules:      []string{"FS-INDEX", "FS-BLOB", "TS-CONTENT-FIRST", "SH-DIGESTER", "FS-INIT"},
+		Rules:      []string{"FS-INDEX", "FS-BLOB", "TS-CONTENT-FIRST", "SH-DIGESTER", "FS-INIT", "TS-SAVE#api"},
 		Technique:  "filesystem-effect analysis on go/ssa (who-may-write, ordering of effects on all paths)",
 		Decided:    "the ordering/atomicity skeleton that a crash can expose: index.json only ever replaced by rename of a fully encoded same-directory temp file; blobs only appear by rename of the session's closed temp file after the digest comparison; content stored before the index entry that names it (handlers and ingest); layout file before index before exists flag. With POSIX rename atomicity (trusted) a blob file is absent or complete and index.json is the old or the new version.",
 		NotDecided: "multi-step requests being all-or-nothing; GC deleting blobs before saving the index; stray temp files; power-failure durability (outside the property).",
 	})
 	registerProperty(&Property{ID: "C10", DesignRef: "DESIGN.md §4 C10, §3.5",
-		Rules:      []string{"TS-SAVE", "FS-INIT", "FS-CLEANUP", "LK-COPY", "SH-WORKLIST#complete", "SH-CONVERT-MARK#loader", "TS-HASHBYTES"},
+		Rules:      []string{"TS-SAVE", "FS-INIT", "FS-CLEANUP", "LK-COPY", "SH-WORKLIST#complete", "SH-CONVERT-MARK#loader", "TS-HASHBYTES", "SH-SWEEP-GUARD#exact"},
 		Technique:  "filesystem-effect and path analysis on go/ssa",
 		Decided:    "every index mutation ends in a save whose result is returned; layout initialised (or known to exist) before the first write on every path; the empty-repository cleanup removes content before markers, stops at the first failure, knows every registered algorithm directory, reports success once the markers are gone and clears the exists flag on exactly that result; the initialiser repairs a layout file that fails the openers' content check; every index load runs the ingest whose child scan processes everything it queues.",
 		NotDecided: "equality of answers across restart / across stores (value-level); child-descriptor rebuild.",
@@ -71,7 +71,7 @@ func init() {
 		NotDecided: "linearizability of histories; multi-call handlers (push = insert + referrers update) being atomic as a whole.",
 	})
 	registerProperty(&Property{ID: "C12", DesignRef: "DESIGN.md §4 C12, §3.2",
-		Rules:      []string{"LK-ORDER", "LK-SELF", "LK-PAIR", "LK-TOKEN", "LK-HOLD", "LK-FLAG", "SH-WORKLIST#term"},
+		Rules:      []string{"LK-ORDER", "LK-SELF", "LK-PAIR", "LK-TOKEN", "LK-HOLD", "LK-FLAG", "SH-WORKLIST#term", "SH-SIBLING-STORE#tests-stop"},
 		Technique:  techLock,
 		Decided:    "the lock-order graph over mutexes, repository tokens, wait-group waits and handler activity is acyclic except for the recorded upload-mutex ⇄ session-cache cycle (known finding); no mutex is re-acquired while held (locked flags specialised per call site, families separated); every lock, token and hold is released on all exits of every entry point; waits for the collector are cancellable; locked=true is only passed with the mutex held; loops run under the token terminate.",
 		NotDecided: "progress of blocking I/O; HTTP server shutdown internals; starvation / fairness.",
@@ -86,19 +86,19 @@ func init() {
 		Assumptions: []string{"named exception: Server.store is written only by Close/Shutdown whose contract forbids concurrent use"},
 	})
 	registerProperty(&Property{ID: "C14", DesignRef: "DESIGN.md §4 C14, §3.5",
-		Rules:      []string{"FS-WHO", "FS-RO", "TS-ROGUARD", "TB-ROUTE", "TS-REFUSE#ro", "TB-DEFAULTS"},
+		Rules:      []string{"FS-WHO", "FS-RO", "TS-ROGUARD", "TB-ROUTE", "TS-REFUSE#ro", "TB-DEFAULTS", "SH-SIBLING-STORE#read-only-guard"},
 		Technique:  "filesystem-effect analysis (who-may-call, guarded reachability over the call graph) and guard dominance on go/ssa",
 		Decided:    "mutating filesystem calls exist only in the directory family and only behind a read-only guard on every chain of callers; the memory family reaches none (store API resolved in-family); repository-level mutators in handlers sit behind the read-only refusal; each mutating route is gated by its API switch.",
 		NotDecided: "‘while still serving its content’ for legacy layouts whose conversion needs a write (value-level).",
 	})
 	registerProperty(&Property{ID: "C15", DesignRef: "DESIGN.md §4 C15, §3.6, §3.4",
-		Rules:      []string{"TB-ERRCODE", "TB-ERRPAIR", "TB-ERRWRAP", "PV-BOUNDS", "PV-ROUTE", "PV-REPO", "TB-NILCONF"},
+		Rules:      []string{"TB-ERRCODE", "TB-ERRPAIR", "TB-ERRWRAP", "SH-SIBLING-STORE#sentinels", "PV-BOUNDS", "PV-ROUTE", "PV-REPO", "TB-NILCONF"},
 		Technique:  "table agreement on typed constants; condition→code classification on go/ssa; difference-bound range proof",
 		Decided:    "the error constructors equal the OCI code table; every error document follows a constant 4xx and the same condition maps to the same (registered) code at all sibling sites; request-derived integers are proven in range; only grammar-checked repository names are routed; dereferenced settings cannot be nil.",
 		NotDecided: "panic freedom in general (index arithmetic not derived from request integers); 5xx-vs-4xx classification of store errors.",
 	})
 	registerProperty(&Property{ID: "C16", DesignRef: "DESIGN.md §4 C16, §3.4",
-		Rules:      []string{"PV-REPO", "PV-ROUTE", "PV-PATH", "TB-RESERVED", "PV-CACHEKEY#isolation"},
+		Rules:      []string{"PV-REPO", "PV-ROUTE", "PV-PATH", "TB-RESERVED", "PV-CACHEKEY#isolation", "SH-SIBLING-STORE#validates-digest"},
 		Technique:  "provenance (backward value tracing through parameters, closures and call sites) and path-composition analysis on go/ssa",
 		Decided:    "every repository name reaching the store is grammar-checked (routed or checked at the site); every path handed to the OS is composed of root ⊕ checked name ⊕ constants ⊕ validated digest parts ⊕ the store's own temp / directory-entry names; session ids never reach a path; names the store creates inside a repository are reserved or outside the grammar.",
 		NotDecided: "symlinks inside the root; case-insensitive filesystems; per-repository isolation of in-memory maps as a value property.",
